@@ -2,7 +2,7 @@
 as one or several chunks of symbolic bytes."""
 from symx.api import harness
 
-from spyne.model.binary import ByteArray
+from spyne.model.binary import ByteArray, BINARY_ENCODING_HEX, BINARY_ENCODING_BASE64, BINARY_ENCODING_URLSAFE_BASE64
 from spyne.protocol import ProtocolBase
 
 PROT = ProtocolBase()
@@ -35,6 +35,41 @@ def bytearray_roundtrip(sx, p):
     sx.observe('text', text)
     lex = sx.matches(LEX[enc], text)
     back = PROT.from_unicode(T, text)
+    if not isinstance(back, (tuple, list)):
+        return False
+    got = b''
+    for c in back:
+        got = got + c
+    return sx.And(lex, sx.eq(got, whole))
+
+
+DEFAULT_T = ByteArray
+SUGGESTED = ['base64', 'hex', 'urlsafe_base64']
+SUGG_CONST = {'base64': BINARY_ENCODING_BASE64, 'hex': BINARY_ENCODING_HEX, 'urlsafe_base64': BINARY_ENCODING_URLSAFE_BASE64}
+
+
+@harness('C08', params=[(e, sg, s) for e in sorted(TYPES) + ['default'] for sg in SUGGESTED for s in [(2,), (3,), (1, 2)]],
+         label=lambda p: 'type=%s protocol-suggests=%s chunks=%s' % p,
+         functions=['spyne.protocol._outbase.OutProtocolBase.byte_array_to_unicode',
+                    'spyne.protocol._inbase.InProtocolBase.byte_array_from_bytes'],
+         bounds={'value': 'every byte string of 2..3 bytes in the listed chunkings',
+                 'configurations': "every pairing of the type's own encoding (base64 / hex / urlsafe_base64 / not set) with "
+                                   "the binary encoding the surrounding protocol suggests (what XmlDocument, the dict "
+                                   "documents and HttpRpc pass as the third argument of to_unicode / from_unicode)"})
+def bytearray_protocol_suggestion(sx, p):
+    """writer and reader agree on the effective encoding - the type's own when set, the protocol's otherwise - so
+    the text is in that encoding's lexical space and reads back as the same bytes"""
+    enc, sugg, shape = p
+    T = TYPES[enc] if enc != 'default' else DEFAULT_T
+    eff = enc if enc != 'default' else sugg
+    chunks = [sx.text('c%d' % i, n, lo=0, hi=255, bytes_=True) for i, n in enumerate(shape)]
+    whole = b''
+    for c in chunks:
+        whole = whole + c
+    text = PROT.to_unicode(T, tuple(chunks), SUGG_CONST[sugg])
+    sx.observe('text', text)
+    lex = sx.matches(LEX[eff], text)
+    back = PROT.from_unicode(T, text, SUGG_CONST[sugg])
     if not isinstance(back, (tuple, list)):
         return False
     got = b''
